@@ -23,11 +23,11 @@
     - a product name denotes the Cauchy product of its factors, the full sum over the
       intermediate block and over all splittings of the multi-order; more than two factors
       associate to the left: (A @ B) @ C.  The product is non-strict in exactly one way: a
-      term one of whose factors is a DECLARED zero (order 0 of a series with start = 0, or
-      the order 0 of a product having such a factor) is 0 without looking at the other
-      factor.  This is what makes recurrences such as  W = -(U'† @ U')/2 , U' = W + V
+      term one of whose factors IS (mathematically) zero is 0 even if the other factor is
+      undefined ("0 times anything is 0"; [vis0] is a sound test for zero of the coefficient
+      structure).  This is what makes recurrences such as  W = -(U'† @ U')/2 , U' = W + V
       well founded (the only same-order occurrence of W on the right is multiplied by the
-      zeroth order of U', which is declared 0).                                        *)
+      zeroth order of U', which is 0).                                        *)
 From Coq Require Import String List ZArith Bool Arith.
 From PV.DSL Require Import Syntax Values.
 Import ListNotations.
@@ -77,29 +77,6 @@ Definition pbo_space (nb : nat) (n : list nat) : list (nat * list nat) :=
 Definition first_key (p : pdef) (k : nat) : key :=
   if Nat.eqb k 2 then KN (nth 0 (pfactors p) EmptyString) else KI (pname p) (k - 1).
 Definition second_key (p : pdef) (k : nat) : key := KN (nth (k - 1) (pfactors p) EmptyString).
-
-Definition start_zero_series (alg : algorithm) (inputs : list string) (s : string) : bool :=
-  match kind_of alg inputs s with
-  | KSeries d => match sstart d with StartZero => true | _ => false end
-  | _ => false
-  end.
-
-(** a DECLARED zero *)
-Definition static_zero (alg : algorithm) (inputs : list string) (k : key) (idx : index) : bool :=
-  all_zero (idx_n idx) &&
-  match k with
-  | KN s =>
-      match kind_of alg inputs s with
-      | KSeries d => match sstart d with StartZero => true | _ => false end
-      | KProduct p => existsb (start_zero_series alg inputs) (pfactors p)
-      | _ => false
-      end
-  | KI pn k' =>
-      match find_pdef pn (aproducts alg) with
-      | Some p => existsb (start_zero_series alg inputs) (firstn k' (pfactors p))
-      | None => false
-      end
-  end.
 
 (* ------------------------------------------------------------------------- the world *)
 
@@ -207,10 +184,12 @@ Section Interp.
       | (mid, m1) :: r =>
           let i1 := (idx_i idx, mid, m1) in
           let i2 := (mid, idx_j idx, lsub (idx_n idx) m1) in
-          if static_zero alg inputs k1 i1 || static_zero alg inputs k2 i2
-          then iprod_loop k1 k2 r acc
-          else obind (sub k1 i1) (fun a => obind (sub k2 i2) (fun b =>
-                 iprod_loop k1 k2 r (vadd O acc (vmul O a b))))
+          match sub k1 i1, sub k2 i2 with
+          | Some a, Some b => iprod_loop k1 k2 r (vadd O acc (vmul O a b))
+          | Some a, None => if vis0 O a then iprod_loop k1 k2 r acc else None
+          | None, Some b => if vis0 O b then iprod_loop k1 k2 r acc else None
+          | None, None => None
+          end
       end.
 
     Definition iprod (k1 k2 : key) : option V :=
